@@ -1,7 +1,9 @@
 package inspect
 
 import (
+	"maps"
 	"reflect"
+	"slices"
 	"sort"
 	"strings"
 
@@ -53,8 +55,8 @@ func Translations(localization flows.Localization, itemUUID uuids.UUID, property
 func extractTemplates(v reflect.Value, lang i18n.Language, include func(i18n.Language, string)) {
 	switch typed := v.Interface().(type) {
 	case map[string]string:
-		for _, i := range typed {
-			include(lang, i)
+		for _, k := range slices.Sorted(maps.Keys(typed)) {
+			include(lang, typed[k])
 		}
 	case []string:
 		for _, i := range typed {
